@@ -483,10 +483,13 @@ func (c *CqlServerConnection) incomingLoop() {
 func (c *CqlServerConnection) outgoingLoop() {
 	log.Debug().Msgf("%v: listening for outgoing frames...", c)
 	c.waitGroup.Add(1)
+	// Close sets c.outgoing to nil before closing the channel: receive from the channel itself, since a
+	// receive from the nil field would block forever and Close would never return.
+	outgoingFrames := c.outgoing
 	go func() {
 		abort := false
 		for !c.IsClosed() {
-			if outgoing, ok := <-c.outgoing; !ok {
+			if outgoing, ok := <-outgoingFrames; !ok {
 				if !c.IsClosed() {
 					log.Error().Msgf("%v: outgoing frame channel was closed unexpectedly, closing connection", c)
 					abort = true
